@@ -10,4 +10,5 @@ import (
 // byte string is the stream the property draws from (rt.FuzzProp), so generators, oracle and failure
 // signatures are exactly those of the named test.
 
-func FuzzPropIndexStability(f *testing.F) { rt.FuzzProp(f, rt.Capture(TestIndexStability)) }
+func FuzzPropIndexStability(f *testing.F)   { rt.FuzzProp(f, rt.Capture(TestIndexStability)) }
+func FuzzPropLookAlikeOrigins(f *testing.F) { rt.FuzzProp(f, rt.Capture(TestLookAlikeOrigins)) }
